@@ -62,6 +62,26 @@ DESC = {
     "C20": ("`poles` sorts the reference-axes string", "ref_axes 'zx', 'yx', 'zy'"),
     "C20b": ("axial data folded once into the upper hemisphere instead of |d.c| per counter", "counter in the lower hemisphere"),
     "C20c": ("projection gains `axial=` and `point_density` forwards it", "axial=False"),
+    "C01d": ("zero-strain-rate branch of `eval_rhs` returns the spin tensor W itself as orientation rate ('passive rotation')", "purely rotational velocity gradient (D = 0, W != 0) at a solver evaluation"),
+    "C02d": ("integer fast path `ratio**int(n)` replaces the signed power for integral exponents", "olivine, n exactly 2.0 or 4.0, secondary system sheared against the primary"),
+    "C03d": ("no-slip early returns give W^T not composed with the orientation", "C-type olivine grain with only the infinite-CRSS system resolved, flow with vorticity"),
+    "C04d": ("strain-rate scale: fast path |L_ij|/2 when L has a single non-zero entry", "uniaxial L (single diagonal entry) in the unrotated frame, M* > 0"),
+    "C05d": ("zero-strain-rate guard compares the dimensional scale with machine epsilon (`<= eps`)", "k below ~4e-16"),
+    "C06d": ("velocity gradient sampled at start/mid/end; if equal, the start sample is used for the whole interval", "L(t, x(t)) that coincides at the three sample points but varies in between"),
+    "C07d": ("`get_crss` as a table lookup with only an upper range check for olivine", "negative fabric ordinal with the olivine phase (index wraps around)"),
+    "C08d": ("phase-fraction table memoised per `id(params)` and rebuilt only when the assemblage changes", "same params dict reused with changed `phase_fractions`"),
+    "C09d": ("floor first with `np.maximum`, then `mask = fractions == threshold`", "grain exactly at chi/n; exactly-zero volumes with chi = 0"),
+    "C10d": ("expanded stiffness tensors cached per `id(elastic_tensors)`", "same StiffnessTensors object mutated between calls / recycled id"),
+    "C11d": ("`rotate` returns the tensor unchanged when the rotation has no off-diagonal entries", "half-turn about a coordinate axis, non-orthorhombic tensor"),
+    "C12d": ("SCCS pairing of the two eigenvector sets by index instead of nearest axis", "orthorhombic tensor whose two contractions rank the axes differently"),
+    "C13d": ("closed-form 3x3 eigenvalues with an unsorted early exit for diagonal matrices", "exactly diagonal scatter matrix not already descending"),
+    "C14d": ("theoretical misorientation density memoised by (theta range, bins) without the lattice system", "two lattice systems with equal theta_max in one process / pool"),
+    "C15d": ("seeded generator kept in an `lru_cache`", "second call with the same seed in one process"),
+    "C16d": ("save-time trial parse skipped when `isinstance(d, t)`", "Python bool in an integer column"),
+    "C17d": ("postfix helper tests truthiness instead of `is not None`", "falsy postfix (0, '') saved after another mineral"),
+    "C18d": ("terminal event hoisted to module level with its state in a module dict, rewound only on success", "pathline request after one that raised"),
+    "C19d": ("fabric letter resolved with `'ABCDE'.index(...)`", "multi-letter or empty fabric string ('AB', '', 'BC')"),
+    "C20d": ("axial exponential kernel as 2 exp(-f) cosh(f c)", "n/sigma^2 above ~354 (overflow)"),
 }
 rows = []
 for seed in sorted(os.listdir(os.path.join(VERIF, "seeded"))):
